@@ -4,6 +4,7 @@ import os
 import c11_rules
 import validators
 import reader_extra
+import alloc_bounds
 from vlib.core import VERIF
 
 
@@ -29,6 +30,10 @@ def run(facts, tier):
     obs += o
     rules.append({"rule": "reader.registration", "instances": len(o), "min": 16,
                   "text": "items a serde call constructs into a raw buffer are registered with the owner's deleter (or repackaged / destroyed in place) before any later input-dependent rejection can throw"})
+    o = alloc_bounds.obligations(facts)
+    obs += o
+    rules.append({"rule": "reader.unbounded-allocation", "instances": len(o), "min": 60,
+                  "text": "an image value wider than 16 bits (or a power of two of an image exponent) is validated, or compared with the buffer length, before it sizes an allocation - stream and byte readers"})
     o = reader_extra.serde_string_guard(facts)
     obs += o
     rules.append({"rule": "reader.serde-string", "instances": len(o), "min": 2,
